@@ -148,6 +148,7 @@ def run(ctx, w):
     stale(ctx, w, S, R, term_dump)
     reprint(ctx, w, S, R, term_dump)
     buffer_dump(ctx, w, S, R, term_dump)
+    guard_semantics(ctx, w, S, R, term_dump, em)
     # state the dump cannot express must not exist: stale parameter cells behind the high-water mark (hidden parser state),
     # and a tab table that is not sorted / unique / below the width (the replay `CSI n \` CSI W` normalises it)
     from rules import c03, c18, tables
@@ -797,3 +798,125 @@ def buffer_dump(ctx, w, S, R, term_dump):
     ctx.check(okp, "U9", "pen-runs", "Buffer::dump must emit a cell run's pen exactly when it differs from the previously emitted pen (guards: %s)" % [e.guard_str() for e in pens], loc=w.fn_loc(bd),
               sample={"guard": [e.guard_str() for e in pens]})
     ctx.floor("U9", 3, "row-content obligations")
+
+
+# ---- U10 ---------------------------------------------------------------------------------------
+def guard_semantics(ctx, w, S, R, term_dump, em):
+    """Whenever one scalar state component deviates from the power-on value, some emission that re-establishes
+    exactly that component has a guard that is TRUE (guards are evaluated, not pattern-matched, on the
+    constructor's state with one component changed; 10x5 representative geometry)."""
+    import symeval as SE
+    from rules import c19
+    ctx.rule("U10", "for every single deviation of a scalar state component from its power-on value (modes, charsets, cursor visibility, margins) the guard of an emission that re-establishes that component evaluates to true")
+    ctors = c19.constructor_of(w, S.term_ty)
+    if len(ctors) != 1:
+        ctx.missing_anchor("U10", "constructor of the terminal")
+        return
+    cf, cpt, crv = ctors[0]
+    T = w.terms(cf)
+    COLS, ROWS = 10, 5
+    it = SE.Interp(w.facts)
+
+    def conv(t):
+        if t[0] == "const":
+            return t[1]
+        if t[0] == "adt" and not t[4]:
+            return ("v", "%s::%s" % (t[1], t[2]))
+        if t[0] == "array":
+            return ("s", tuple(conv(x) for x in t[1]))
+        if t[0] == "load" and t[1] == ("arg1", "0"):
+            return COLS
+        if t[0] == "load" and t[1] == ("arg1", "1"):
+            return ROWS
+        if t[0] == "binop" and t[1] in ("Sub", "Add"):
+            a, b = conv(t[2]), conv(t[3])
+            if isinstance(a, int) and isinstance(b, int):
+                return a - b if t[1] == "Sub" else a + b
+        if t[0] == "call" and not t[2] and t[1] in w.facts.hir:
+            try:
+                v = it.call_fn(t[1], [])
+                if isinstance(v, tuple) and v and v[0] == "obj" and "selfty" not in str(v[1]):
+                    return v
+                if isinstance(v, tuple) and v and v[0] == "obj":
+                    return ("obj", t[1].split(" as ")[0].lstrip("<"), v[2])
+            except H.Unsupported:
+                pass
+        return ("sym", "opaque")
+    base = {nm: conv(WD.strip_names(T.operand(op, cpt))) for nm, op in zip(crv["field_names"], crv["ops"])}
+    # deviations
+    devs = []
+    for nm, v in base.items():
+        fo = [f for f in w.facts.struct_fields(S.term_ty) if f["name"] == nm][0]
+        ty = fo["ty"]["s"]
+        if nm in (R["cols"], R["rows"], R["pending_wrap"]) or nm == "xtwinops":
+            continue
+        if isinstance(v, bool):
+            devs.append((nm, {nm: (not v)}, nm))
+        elif isinstance(v, tuple) and v[0] == "v" and fo["ty"].get("adt") in w.facts.adts and w.facts.adts[fo["ty"]["adt"]]["kind"] == "enum" and nm != R["active_buffer_type"]:
+            for var in w.facts.enum_variants(fo["ty"]["adt"]):
+                vv = ("v", "%s::%s" % (fo["ty"]["adt"], var))
+                if vv != v:
+                    devs.append(("%s=%s" % (nm, var), {nm: vv}, nm))
+        elif isinstance(v, tuple) and v[0] == "s" and all(isinstance(x, tuple) and x[0] == "v" for x in v[1]):
+            adt = v[1][0][1].rsplit("::", 1)[0]
+            for i in range(len(v[1])):
+                for var in w.facts.enum_variants(adt):
+                    vv = ("v", "%s::%s" % (adt, var))
+                    if vv != v[1][i]:
+                        items = list(v[1])
+                        items[i] = vv
+                        devs.append(("%s[%d]=%s" % (nm, i, var), {nm: ("s", tuple(items))}, "%s[%d]" % (nm, i)))
+        elif nm == R["active_charset"]:
+            devs.append((nm + "=1", {nm: 1}, nm))
+        elif nm == R["top_margin"]:
+            devs.append((nm + "=1", {nm: 1}, "margins"))
+        elif nm == R["bottom_margin"]:
+            devs.append((nm + "=rows-2", {nm: ROWS - 2}, "margins"))
+        elif isinstance(v, tuple) and v[0] == "obj" and nm == R["cursor"]:
+            for k2, v2 in v[2].items():
+                if isinstance(v2, bool):
+                    devs.append(("%s.%s" % (nm, k2), {nm: ("obj", v[1], dict(v[2], **{k2: (not v2)}))}, k2))
+    sim = dumpsim.Sim(w)
+
+    def establishes(e):
+        try:
+            text, holes = instantiate(w, e)
+        except H.Unsupported:
+            return set()
+        if any(h[0] == "<string>" for h in holes):
+            return set()
+        s2 = dumpsim.Sim(w)
+        s2.feed(text)
+        fns = dumpsim.functions(s2.events)
+        out = set()
+        for f in fns:
+            if f[0] == "Decstbm":
+                out.add("margins")
+            out |= set(function_sets(w, R, f))
+        return out
+    est = {e.order: establishes(e) for e in em if e.kind in ("lit", "fmt")}
+    n = 0
+    for label, change, target in devs:
+        state = dict(base)
+        state.update(change)
+        selfv = ("obj", S.term_ty, state)
+        hit = []
+        cands = [e for e in em if e.kind in ("lit", "fmt") and target in est[e.order]]
+        for e in cands:
+            try:
+                vals = []
+                for (k, pol, ge) in e.guards:
+                    v = SE.Interp(w.facts).ev(ge, {"self": selfv})
+                    if SE.is_symbolic(v) or not isinstance(v, bool):
+                        raise H.Unsupported("guard value")
+                    vals.append(v if pol is True else (not v) if pol is False else None)
+                if all(x is True for x in vals):
+                    hit.append(e)
+            except H.Unsupported:
+                continue
+        n += 1
+        ctx.check(bool(hit), "U10", label,
+                  "with %s (everything else at power-on values, %dx%d) no emission that re-establishes `%s` is enabled (candidates: %s): the restored terminal keeps the power-on value" %
+                  (label, COLS, ROWS, target, ["line %s: %s" % (e.line, e.guard_str()[:60]) for e in cands][:4]), loc=w.fn_loc(term_dump),
+                  sample={"deviation": label, "enabled": ["line %s" % e.line for e in hit]})
+    ctx.floor("U10", 10, "single-component deviations")
